@@ -52,10 +52,10 @@ PROPS = {
          "mating move (C10_mate_in_one_found) and stops by itself - only-move shortcut at depth 1, or iterations 1,2,3 with the third scoring 32667 (C10_mate_in_one_stops) - under an explicit, computable no-collision "
          "condition on 64-bit hashes (a mated child's hash differs from the root's and from every non-mated child's). The root's repetition filter never removes a mating move in such a game (C10_filter_keeps_mates). "
          "C10_dead_root: a root without legal moves is answered with no move, for every table/limit/stop. Proving the mate-in-one half exposed a genuine defect (the filter fired on records that repeat nothing and removed "
-         "the only mating move - two records, one found by the proof's author; fix a0a0e3f). The mate-in-two half is decided by the correspondence run against the independent solver Rules.forced_mate_in (forced mate in two "
+         "the only mating move - two records, one found by the proof's author; fix a0a0e3f). The mate-in-one theorem is also stated over Spec/Rules.v (C10_mate_in_one_rules, C10_mate_in_one_forced: forced_mate_in 1 implies keeps_mate 0 of the announced move). The mate-in-two half is proved for the table-less mode only and otherwise decided by the correspondence run against the independent solver Rules.forced_mate_in (forced mate in two "
          "at depth 5 and 6, fresh table; at the end of game records a m b n a on which the filter fires; inside sessions of the real binary after a timed go that ended early); known finding C10-K1 (a quiet key of a mate "
          "in two is filtered when the record repeats) is replayed on every run.",
-         "mate-in-two half: exploration with an independent oracle, not a theorem (a theorem is being attempted in Proofs/MateTwo.v). Known finding C10-K1 is listed in known_findings.json."),
+         "mate-in-two half: a theorem only for the model's table-less mode (C10_mate_in_two_tableless_partial, with the reference value 32665 attained only by keys); with the table on it is exploration with an independent oracle. Known finding C10-K1 is listed in known_findings.json."),
  "C11": ("proof",
          'Theorems: fields 1-4 of the exported text = FenSpec.render (abs g) and six well-formed fields, in every reachable game; re-import succeeds with the same position and the same hash, unconditionally for every game reached by legal play; parse (render p) = p. The run also re-imports the exported text on the real code (same fields, hash and legal moves), including games of 300 and 396 plies and scripted en-passant / promotion-capture games.',
          ''),
